@@ -108,6 +108,25 @@ def minimal(case, v, **kw):
     return c
 
 
+REPRESENTATIONS = ("readonly", "bigendian", "strided", "zero_copy_view")
+
+
+def represent(vals, how):
+    """float64 array holding `vals`, represented as `how`"""
+    a = numpy.array(vals, dtype=numpy.float64)
+    if how == "readonly":
+        a.setflags(write=False)
+    elif how == "bigendian":
+        a = a.astype(">f8")
+    elif how == "strided":
+        b = numpy.full(2 * len(a) + 1, 1e300)
+        b[1::2] = a
+        a = b[1::2]
+    elif how == "zero_copy_view":
+        a = numpy.frombuffer(a.tobytes(), dtype=numpy.float64)   # read-only, does not own its data
+    return a
+
+
 def check_case(ctx, case):
     from csep.utils import calc
     from csep.core.exceptions import CSEPException
@@ -151,6 +170,13 @@ def check_case(ctx, case):
         arg = numpy.array(vals, dtype=numpy.int64)
     elif inp == "list":
         arg = list(vals)
+    elif inp == "tuple":
+        arg = tuple(vals)
+    elif inp in REPRESENTATIONS:
+        # same values, other legitimate array representations ("array-like"): the answers must not depend on them
+        arg = represent(vals, inp)
+        bins = represent([float(e) for e in edges], inp) if case["kind"] != "int" else bins
+        ctx.count("representation:" + inp)
     else:
         arg = None
     if arg is not None:
@@ -195,7 +221,7 @@ def check_case(ctx, case):
             break
         prev = (vals[i], g)
 
-    if inp not in ("ndarray", "list") or n < 2:
+    if inp not in ("ndarray", "list", "tuple") + REPRESENTATIONS or n < 2:
         return
     # ---- discretize
     must_raise = any(a == {-1} for a in allowed)
@@ -377,7 +403,7 @@ def run(ctx):
             step = draw(st.sampled_from(["1/7", "1/3", "1/6", "2/3", "1/12", "1/60"]))      # equally spaced, not a decimal grid
         if kind in ("cleaner", "magbins", "arange"):
             n = max(n, 2)
-        inp = draw(st.sampled_from(["ndarray", "ndarray", "ndarray", "list", "scalar", "float32", "int"]))
+        inp = draw(st.sampled_from(["ndarray", "ndarray", "ndarray", "list", "scalar", "float32", "int", "tuple", "readonly", "bigendian", "strided", "zero_copy_view"]))
         if kind == "int" and inp == "float32":
             inp = "ndarray"
         if n <= 400:
